@@ -103,7 +103,8 @@ PROPS = {
     },
     "C12": {
         "quick": [L("checked", 1.0)],
-        "thorough": [L("checked", 1.0), L("wrapping", 0.1)],
+        "thorough": [L("checked", 1.0), L("wrapping", 0.1), L("strace", 0.004, workers=16)],
+        "offline": ["strace_check"],
         "assumptions": COMMON_ASSUME + ["runs on this sandbox's filesystem (case-sensitive, no symlinks in the workload)"],
     },
     "C13": {
